@@ -819,7 +819,13 @@ pub fn gen_c10(rng: &mut Rng) -> Value {
                 let key = sc_keys[ki].clone();
                 steps.push(json!({"k":"env","act":"append_record","bucket":ki,"rec":{"key":key,"integrity":*rng.pick(&["md5-1B2M2Y8AsgTpgAmY7PhCfg==", "garbage", "sha256"]),"time":1,"size":0,"metadata":null,"raw_metadata":null}}));
             } else {
-                steps.push(json!({"k":"env","act":"truncate_frac","bucket":rng.idx(nk),"num":rng.range(700, 999)}));
+                // (the last record of that bucket is made dense with multi-byte characters first, so that the cut is
+                // likely to end inside one)
+                let ki = rng.idx(nk);
+                let mut w = json!({"k":"api","op":"write","entry":"opts","key":ki,"val":0,"opts":{"meta":{"t":"\u{e9}\u{65e5}".repeat(40)}}});
+                set_flav(&mut w, flav(rng));
+                steps.push(w);
+                steps.push(json!({"k":"env","act":"truncate_frac","bucket":ki,"num":rng.range(600, 999)}));
             }
             for f in PURE {
                 steps.push(json!({"k":"audit","bin":f.0,"mode":f.1,"what":["metadata","list"]}));
